@@ -27,6 +27,7 @@ contract(F, "iterRange",
          modifies=BOOK,
          ensures={"C07 C04 C10": [
              "unchanged_list(self.coords)", "unchanged_list(self.payloads)",
+             "forall(lambda k: allocated(out[k][1]), 0, len(out))",
              # without a start position the saved-position bookkeeping is not touched at all
              "implies(isnone(start_pos), self._saved_pos == old(self._saved_pos) and self._saved_count == old(self._saved_count) and self._saved_dist == old(self._saved_dist))",
              "forall(lambda a, b: implies(0 <= a and a < b and b < len(out), out[a][0] < out[b][0]))",
@@ -41,7 +42,7 @@ contract(F, "iterRange",
              types={"coord": "int", "payload": "Payload|Fiber", "j": "int"},
              modifies=BOOK,
              invariant=[
-                 "wf(self)", "i >= 0", "not is_collecting", "implies(isnone(start_pos), self._saved_pos == old(self._saved_pos) and self._saved_count == old(self._saved_count) and self._saved_dist == old(self._saved_dist))",
+                 "wf(self)", "i >= 0", "not is_collecting", "forall(lambda k: allocated(out[k][1]), 0, len(out))", "implies(isnone(start_pos), self._saved_pos == old(self._saved_pos) and self._saved_count == old(self._saved_count) and self._saved_dist == old(self._saved_dist))",
                  "isnone(start_pos) or len(out) == 0 or (0 <= self._saved_pos < len(self.coords) and self.coords[self._saved_pos] == out[len(out) - 1][0])",
                  "forall(lambda a, b: implies(0 <= a and a < b and b < len(out), out[a][0] < out[b][0]))",
                  "forall(lambda k: out[k][0] < self.coords[i + _i0], 0, len(out)) or i + _i0 >= len(self.coords)",
@@ -125,12 +126,21 @@ def or_sound(da, db, with_ab=True):
     ]
 
 
+# the default box made for the absent side is a new object every time: it is none of the payloads delivered before it
+ALLOC_OUT = "forall(lambda k: allocated(out[k][1][1]) and allocated(out[k][1][2]), 0, len(out))"
+DIST_A = ("forall(lambda k1, k2: implies(0 <= k1 and k1 < k2 and k2 < len(out) and out[k2][1][0] == 'A', "
+          "not (out[k2][1][2] is out[k1][1][2]) and not (out[k2][1][2] is out[k1][1][1])))")
+DIST_B = ("forall(lambda k1, k2: implies(0 <= k1 and k1 < k2 and k2 < len(out) and out[k2][1][0] == 'B', "
+          "not (out[k2][1][1] is out[k1][1][1]) and not (out[k2][1][1] is out[k1][1][2])))")
+ALLOC_SEQ = ["forall(lambda i: allocated(a.seq[i][1]), 0, len(a.seq))", "forall(lambda j: allocated(b.seq[j][1]), 0, len(b.seq))"]
+
+
 def fin(s):
     return s.replace("a.seq", "final(a).seq").replace("b.seq", "final(b).seq")
 
 
 OR_INV = ["not is_collecting", "not a_traced", "not b_traced", SORTED_A, SORTED_B, A_HEAD, B_HEAD, SORTED_OUT,
-          OUT_LT, H_A, H_B, GE_A, GE_B] + or_sound(DONE_A, DONE_B) + [
+          OUT_LT, H_A, H_B, GE_A, GE_B] + or_sound(DONE_A, DONE_B) + ALLOC_SEQ + [ALLOC_OUT, DIST_A, DIST_B] + [
           "forall(lambda i: exists(lambda k: 0 <= k and k < len(out) and out[k][0] == a.seq[i][0], witness=[len(out) - 1]), 0, " + DONE_A + ")",
           "forall(lambda j: exists(lambda k: 0 <= k and k < len(out) and out[k][0] == b.seq[j][0], witness=[len(out) - 1]), 0, " + DONE_B + ")"]
 LEAF_AB = ["wf(self.a_fiber)", "wf(self.b_fiber)", "self.a_fiber.g_leaf", "self.b_fiber.g_leaf", "not Metrics.collecting",
@@ -140,7 +150,7 @@ contract(F, "__or__.or_iterator.__iter__", types=dict(self="or_iterator"),
          yields=dict(elem=UNION_ELEM),
          requires=LEAF_AB, modifies=[],
          ensures={"C04 C10": [
-             fin(SORTED_OUT)] + [fin(x) for x in or_sound("len(a.seq)", "len(b.seq)")] + [
+             fin(SORTED_OUT)] + [fin(x) for x in or_sound("len(a.seq)", "len(b.seq)")] + [DIST_A, DIST_B] + [
              fin("forall(lambda i: exists(lambda k: 0 <= k and k < len(out) and out[k][0] == a.seq[i][0]), 0, len(a.seq))"),
              fin("forall(lambda j: exists(lambda k: 0 <= k and k < len(out) and out[k][0] == b.seq[j][0]), 0, len(b.seq))")]},
          loops={0: dict(types=MERGE_TYPES, invariant=OR_INV),
@@ -149,7 +159,8 @@ contract(F, "__or__.or_iterator.__iter__", types=dict(self="or_iterator"),
          note="leaf ranks: the absent side is a fresh box holding that fiber's default (interior ranks: C02/C10 bounded parts)")
 
 # ---- xor: like union without the matching coordinates
-XOR_INV = ([SORTED_A, SORTED_B, A_HEAD, B_HEAD, SORTED_OUT, OUT_LT, H_A, H_B, GE_A, GE_B] + or_sound(DONE_A, DONE_B, with_ab=False) + [
+XOR_INV = ([SORTED_A, SORTED_B, A_HEAD, B_HEAD, SORTED_OUT, OUT_LT, H_A, H_B, GE_A, GE_B] + or_sound(DONE_A, DONE_B, with_ab=False) + ALLOC_SEQ +
+           [ALLOC_OUT, DIST_A, DIST_B] + [
     "forall(lambda i: exists(lambda j: 0 <= j and j < len(b.seq) and b.seq[j][0] == a.seq[i][0]) or exists(lambda k: 0 <= k and k < len(out) and out[k][0] == a.seq[i][0], witness=[len(out) - 1]), 0, " + DONE_A + ")",
     "forall(lambda j: exists(lambda i: 0 <= i and i < len(a.seq) and a.seq[i][0] == b.seq[j][0]) or exists(lambda k: 0 <= k and k < len(out) and out[k][0] == b.seq[j][0], witness=[len(out) - 1]), 0, " + DONE_B + ")"])
 XOR_LEAF = ["wf(self.a_fiber)", "wf(self.b_fiber)", "self.a_fiber.g_leaf", "self.b_fiber.g_leaf", "not Metrics.collecting",
@@ -158,7 +169,7 @@ XOR_LEAF = ["wf(self.a_fiber)", "wf(self.b_fiber)", "self.a_fiber.g_leaf", "self
 contract(F, "__xor__.xor_iterator.__iter__", types=dict(self="xor_iterator"),
          yields=dict(elem=UNION_ELEM),
          requires=XOR_LEAF, modifies=[],
-         ensures={"C04 C10": [fin(SORTED_OUT)] + [fin(x) for x in or_sound("len(a.seq)", "len(b.seq)", with_ab=False)] + [
+         ensures={"C04 C10": [fin(SORTED_OUT)] + [fin(x) for x in or_sound("len(a.seq)", "len(b.seq)", with_ab=False)] + [DIST_A, DIST_B] + [
              fin("forall(lambda i: exists(lambda j: 0 <= j and j < len(b.seq) and b.seq[j][0] == a.seq[i][0]) or exists(lambda k: 0 <= k and k < len(out) and out[k][0] == a.seq[i][0]), 0, len(a.seq))"),
              fin("forall(lambda j: exists(lambda i: 0 <= i and i < len(a.seq) and a.seq[i][0] == b.seq[j][0]) or exists(lambda k: 0 <= k and k < len(out) and out[k][0] == b.seq[j][0]), 0, len(b.seq))")]},
          loops={0: dict(types=MERGE_TYPES, invariant=XOR_INV),
